@@ -39,3 +39,49 @@ Proof.
   - destruct e as [b|b]; cbn [apply_rooms map concat]; rewrite IH, <- ?app_assoc; cbn [app]; rewrite ?app_nil_l; reflexivity.
 Qed.
 Print Assumptions C20_streams_quiet.
+
+(* stderr policy: standard output carries exactly the rows, standard error exactly the diagnostics *)
+From Jawk Require Import LocalityProofs.
+
+Theorem C20_stderr_separation :
+  forall (cf : Go.cfg) (fname : option Base.str) (evs : list Reader.ev) (b : bool)
+      (p : Go.printer) (sts : list (Chain.stage Expr.expr)) (hdr : list Base.byte),
+    Go.c_on_error cf = Go.OnStderr ->
+    List.Forall (fun e : Reader.ev => e <> Reader.EErr) evs ->
+    Go.build_pipeline cf = Some (p, sts) ->
+    Go.start_output p (Chain.titles Expr.expr sts nil) (Go.c_rowsep cf) = Some hdr ->
+    (forall (ss : list (Chain.sstate Expr.expr)) (c : Ctx.ctx Expr.expr),
+     snd (Chain.process Expr.expr Expr.get sts ss c) = Chain.Continue) ->
+    let g := Go.go cf ((fname, evs) :: nil) b in
+    Go.g_result g = Go.GOk /\
+    List.filter is_out (Go.g_events g) =
+    (hdr_events hdr ++
+     Go.emit cf p (length (Chain.titles Expr.expr sts nil))
+       (Chain.run Expr.expr Expr.get sts (List.map (Chain.init_state Expr.expr) sts)
+          (fst (fst (Go.ctxs_of_input cf fname evs)))))%list /\
+    List.filter (fun e : Go.oev => negb (is_out e)) (Go.g_events g) =
+    List.repeat (Go.OErr Go.error_line) (BinNat.N.to_nat (snd (fst (Go.ctxs_of_input cf fname evs)))).
+Proof. exact go_run_stderr. Qed.
+Print Assumptions C20_stderr_separation.
+
+Theorem C20_panic_fails :
+  forall (cf : Go.cfg) (fname : option Base.str) (evs : list Reader.ev) (b : bool)
+      (p : Go.printer) (sts : list (Chain.stage Expr.expr)) (hdr : list Base.byte),
+    Go.c_on_error cf = Go.OnPanic ->
+    Go.build_pipeline cf = Some (p, sts) ->
+    Go.start_output p (Chain.titles Expr.expr sts nil) (Go.c_rowsep cf) = Some hdr ->
+    (forall (ss : list (Chain.sstate Expr.expr)) (c : Ctx.ctx Expr.expr),
+     snd (Chain.process Expr.expr Expr.get sts ss c) = Chain.Continue) ->
+    BinNat.N.lt BinNums.N0 (snd (fst (Go.ctxs_of_input cf fname evs))) ->
+    let pre :=
+      fst
+        (read_ctxs_pre (Go.input_fuel evs) (Go.c_only_objs cf) (Reader.mk_reader evs) fname BinNums.N0
+           BinNums.N0) in
+    Go.g_result (Go.go cf ((fname, evs) :: nil) b) = Go.GErrJson /\
+    Go.g_events (Go.go cf ((fname, evs) :: nil) b) =
+    (hdr_events hdr ++
+     Go.emit cf p (length (Chain.titles Expr.expr sts nil))
+       (snd (Chain.feed_all Expr.expr Expr.get sts (List.map (Chain.init_state Expr.expr) sts) pre)))%list /\
+    (exists tl : list (Ctx.ctx Expr.expr), fst (fst (Go.ctxs_of_input cf fname evs)) = (pre ++ tl)%list).
+Proof. exact go_run_panic. Qed.
+Print Assumptions C20_panic_fails.
